@@ -6,6 +6,7 @@ import Aldy.Driver.C19
 import Aldy.Driver.C11
 import Aldy.Driver.C10
 import Aldy.Driver.C12
+import Aldy.Driver.C06
 
 /-! Line-protocol driver: one JSON object per input line (`{"op": ..., ...}`), one JSON
 object per output line.  Errors are reported as `{"error": msg}`; the driver never guesses. -/
@@ -32,6 +33,7 @@ def dispatch (j : Json) : Except String Json := do
   | "natkey" => opNatKey j
   | "select" => opSelect j
   | "writers" => opWriters j
+  | "pileup" => opPileup j
   | "ping" => pure (objJ [("pong", boolJ true)])
   | _ => .error s!"unknown op {op}"
 
